@@ -704,6 +704,24 @@ def battery():
         got = apply_mismatches(ol, doc["mismatches"])
         if got != formatted and not local:
             fails.append(({("wiring", "Json"), "any"}, name, f"scenario {name}: applying the JSON mismatches gives {got!r}, the formatted file is {formatted!r}", rec))
+        # the same text through stdin: the same mismatches, the same unified diff
+        rs = clireplay.run_cli(binp, {}, ["--check", "--output-format", "json"] + flags + ["-"], stdin=src)
+        try:
+            ds = json.loads(rs["out"])
+            gs = apply_mismatches(ol, ds["mismatches"])
+        except Exception:
+            gs = None
+        if gs != formatted:
+            fails.append(({("wiring", "Json"), ("wiring", "any"), "any"}, name, f"scenario {name} (stdin): applying the JSON mismatches printed for stdin gives {gs!r}, the formatted text is {formatted!r}",
+                          {"source": src, "flags": flags + ["-"], "json": rs["out"][:1500], "formatted": formatted}))
+        ru = clireplay.run_cli(binp, {}, ["--check", "--output-format", "unified"] + flags + ["-"], stdin=src)
+        try:
+            gu = apply_unified(src, ru["out"])
+        except ValueError as e:
+            gu = f"<{e}>"
+        if gu != formatted:
+            fails.append(({("wiring", "Unified"), ("wiring", "any"), "any"}, name, f"scenario {name} (stdin): applying the unified diff printed for stdin gives {gu!r}, the formatted text is {formatted!r}",
+                          {"source": src, "flags": flags + ["-"], "stdout": ru["out"][:1500], "formatted": formatted}))
     for name, src, flags in CASES:
         w = clireplay.run_cli(binp, {"f.lua": src}, flags + ["f.lua"])
         formatted = w["after"]["f.lua"][0].decode()
